@@ -743,6 +743,30 @@ def r14k(ctx, rep, rule="R14k"):
             rep.fail(rule, key, "%s no longer compares components through Vm::equal" % nm, [f.span])
         else:
             rep.ok(rule, key, "%s compares every component through Vm::equal" % nm, [f.span])
+        # no verdict `true` inside the walk before the components of the current step were compared
+        body = set()
+        for src, h in f.back_edges():
+            body |= (f.reach_from(h) & f.reach_back(src)) | {h, src}
+        eq_blocks = [bb for bb, t in f.calls() if callee(t) == pre + "equal" and bb in body]
+        k = 0
+        for bb, j_, st in f.stmts():
+            rv = st["rv"]
+            if not (st["lhs"]["l"] == 0 and not st["lhs"]["p"] and rv["k"] == "agg" and rv.get("variant") == "Ok" and rv["ops"]):
+                continue
+            c = op_const(rv["ops"][0])
+            heads = [h for src, h in f.back_edges()]
+            if c is None or c.get("int") not in (1, True) or not any(f.dominates(h, bb) for h in heads):
+                continue
+            k += 1
+            from ..shapes import guard_shapes
+            exhausted = any(re.match(r"disc\(.*Iterator>::next\(.*\)\)=0$", g) or re.match(r"disc\(iter::range::.*::next\(.*\)\)=0$", g)
+                            for g in guard_shapes(f, bb, None, 3))
+            ok = exhausted or any(f.dominates(e, bb) and e != bb for e in eq_blocks)
+            (rep.ok if ok else rep.fail)(
+                rule, "%s|%s|early-true#%d" % (rule, nm, k),
+                "%s answers #t inside its walk only after comparing the current components" % nm if ok else
+                "%s can answer #t inside its walk before the components of the current step were compared (a shortcut on identical "
+                "tails / identical storage skips the element in front of them): (equal? (cons 1 t) (cons 2 t)) is #t" % nm, [st["loc"]])
 
 
 FRESH_LIST = {"marwood::vm::builtin::list::reverse": "reverse"}
